@@ -209,12 +209,17 @@ macro_rules! fmt_specs {
             [0, 0, 0, 3, 32, 0] => Some(format!(concat!("{:3", $r, "}"), $v)),
             [1, 1, 1, 70, 32, 0] => Some(format!(concat!("{:+#070", $r, "}"), $v)),
             [0, 0, 0, 70, 45, 2] => Some(format!(concat!("{:-^70", $r, "}"), $v)),
+            [0, 0, 1, 20, 32, 1] => Some(format!(concat!("{:<020", $r, "}"), $v)),
+            [0, 0, 1, 20, 32, 2] => Some(format!(concat!("{:^020", $r, "}"), $v)),
+            [1, 0, 1, 20, 32, 3] => Some(format!(concat!("{:>+020", $r, "}"), $v)),
+            [1, 1, 1, 24, 42, 2] => Some(format!(concat!("{:*^+#024", $r, "}"), $v)),
+            [0, 1, 1, 9, 95, 1] => Some(format!(concat!("{:_<#09", $r, "}"), $v)),
             _ => None,
         }
     };
 }
 
-pub const FMT_SPECS: [[u128; 6]; 18] = [
+pub const FMT_SPECS: [[u128; 6]; 23] = [
     [0, 0, 0, 0, 32, 0],
     [0, 1, 0, 0, 32, 0],
     [1, 0, 0, 0, 32, 0],
@@ -233,6 +238,12 @@ pub const FMT_SPECS: [[u128; 6]; 18] = [
     [0, 0, 0, 3, 32, 0],
     [1, 1, 1, 70, 32, 0],
     [0, 0, 0, 70, 45, 2],
+    // the `0` flag together with an explicit alignment / fill (std ignores both under `0`)
+    [0, 0, 1, 20, 32, 1],
+    [0, 0, 1, 20, 32, 2],
+    [1, 0, 1, 20, 32, 3],
+    [1, 1, 1, 24, 42, 2],
+    [0, 1, 1, 9, 95, 1],
 ];
 
 macro_rules! fmt_all {
@@ -366,6 +377,7 @@ extra_fixed!(u16, 4);
 extra_fixed!(u64, 4);
 extra_fixed!(u64, 8);
 extra_fixed!(u8, 9);
+extra_fixed!(u64, 40);
 extra_fixed!(u8, 0);
 
 macro_rules! extra_dyn {
@@ -531,7 +543,7 @@ enum It<'a, A: BitVector> {
 
 /// Runs the call sequence on the crate's iterator and, side by side, on a slice iterator over
 /// the bits; returns the crate's answers, or Err(10) at the first disagreement.
-fn run_iter<A: Extra>(a: &A, calls: &[u128], via_into_iter: bool) -> Res {
+fn run_iter<A: Extra>(a: &A, calls: &[u128], via_into_iter: bool, consumer: u128) -> Res {
     let bits: Vec<Bit> = (0..a.len()).map(|i| a.get(i)).collect();
     let before = a.to_raw();
     let mut out: Vec<u128> = vec![];
@@ -547,6 +559,44 @@ fn run_iter<A: Extra>(a: &A, calls: &[u128], via_into_iter: bool) -> Res {
     while k + 1 < calls.len() && !done {
         let code = calls[k];
         let n = calls[k + 1] as usize;
+        // A trailing run of `next` (or of `next_back`) calls long enough to exhaust the iterator is issued through one
+        // of std's consuming methods instead (fold / for_each / collect / rfold / ...): they must yield exactly what
+        // the repeated calls yield, so the trace - and the model - still list the individual calls.
+        if consumer != 0 && code <= 1 && calls[k..].chunks(2).all(|c| c[0] == code) {
+            let m = (calls.len() - k) / 2;
+            let left = match &st { St::F(s) => s.len(), St::R(s) => s.len(), St::RR(s) => s.len() };
+            if m > left {
+                macro_rules! drain {
+                    ($i:expr) => {{
+                        let mut v: Vec<Bit> = vec![];
+                        match (code, consumer) {
+                            (0, 1) => v = $i.fold(v, |mut acc, b| { acc.push(b); acc }),
+                            (0, 2) => $i.for_each(|b| v.push(b)),
+                            (0, 3) => v = $i.collect(),
+                            (0, 4) => { for b in $i { v.push(b); } }
+                            (0, _) => { v.extend($i); }
+                            (_, 1) => v = $i.rfold(v, |mut acc, b| { acc.push(b); acc }),
+                            (_, 2) => $i.rev().for_each(|b| v.push(b)),
+                            (_, 3) => v = $i.rev().collect(),
+                            (_, _) => v = $i.rev().fold(v, |mut acc, b| { acc.push(b); acc }),
+                        }
+                        v
+                    }};
+                }
+                let got: Vec<Bit> = match it { It::F(i) => drain!(i), It::R(i) => drain!(i), It::RR(i) => drain!(i) };
+                let want: Vec<Bit> = match st { St::F(s) => drain!(s.copied()), St::R(s) => drain!(s.copied()), St::RR(s) => drain!(s.copied()) };
+                if got != want {
+                    return Res::Err(10, (k / 2) as u128);
+                }
+                for j in 0..m {
+                    out.push(match got.get(j) { Some(b) => bit_n(*b), None => 2 });
+                }
+                if a.to_raw() != before {
+                    return Res::Err(11, 0);
+                }
+                return l1(out);
+            }
+        }
         k += 2;
         macro_rules! both {
             ($i:ident, $s:ident, $e_i:expr, $e_s:expr) => {{
@@ -709,7 +759,7 @@ fn unary<A: Extra + Extend<Bit>>(c: &Case) -> Res {
         } as u128),
         28 => n1(a.significant_bits() as u128),
         29 => n1(a.is_zero() as u128),
-        30 => run_iter(&a, c.l(0), c.form == 1),
+        30 => run_iter(&a, c.l(0), c.form == 1, c.a(0)),
         31 => {
             let spec = [c.a(1), c.a(2), c.a(3), c.a(4), c.a(5), c.a(6)];
             match a.fmt_(c.a(0), spec) {
@@ -915,6 +965,22 @@ fn same_type_cmp<A: Extra + Ord>(c: &Case) -> Option<Res> {
     if a.cmp(&a) != std::cmp::Ordering::Equal || b.cmp(&a) != ord.reverse() {
         return Some(Res::Err(13, 3));
     }
+    // std's provided methods on top of cmp (a type may override them): max / min / clamp, and the reference forms
+    use std::cmp::Ordering::*;
+    let mx = a.clone().max(b.clone());
+    let mn = a.clone().min(b.clone());
+    let want_max = if ord == Greater { &a } else { &b };
+    let want_min = if ord == Greater { &b } else { &a };
+    if mx.to_raw() != want_max.to_raw() || mn.to_raw() != want_min.to_raw() {
+        return Some(Res::Err(13, 4));
+    }
+    let cl = a.clone().clamp(mn.clone(), mx.clone());
+    if cl.to_raw() != a.to_raw() {
+        return Some(Res::Err(13, 5));
+    }
+    if (&a).cmp(&&b) != ord || (&a == &b) != (ord == Equal) {
+        return Some(Res::Err(13, 6));
+    }
     None
 }
 
@@ -996,6 +1062,20 @@ fn exec_inner(c: &Case) -> Res {
             let cc = Case { vals: vec![Val { kid: c.kind, afix: true, len: 0, words: vec![0; kind_desc(c.kind).2 as usize] }, c.vals[0].clone()], ..c.clone() };
             with_kind!(c.kind, A => with_kind!(ks, B => pair_gen!(&cc, A, B)))
         }
+        14 => with_kind!(c.vals[0].kid, A => {
+            // Clone::clone_from (form 0) / ToOwned::clone_into (form 1) between two values of one type
+            let mut d = <A as Raw>::from_raw(&c.vals[0]);
+            let s = <A as Raw>::from_raw(&c.vals[1]);
+            if c.form == 1 {
+                s.clone_into(&mut d);
+            } else {
+                d.clone_from(&s);
+            }
+            if s.to_raw() != c.vals[1] {
+                return Res::Err(11, 1);
+            }
+            Res::Ok(vec![Item::V(d.to_raw())])
+        }),
         34 | 35 if c.vals[0].kid == c.vals[1].kid => {
             if let Some(r) = with_kind!(c.vals[0].kid, A => same_type_cmp::<A>(c)) {
                 return r;
